@@ -13,7 +13,9 @@ PROPERTY = 'C02'
 LEVEL = 'exploration'
 CASE_TIMEOUT = 120
 BATCH_SIZE = {'quick': 4, 'thorough': 12}
-REQUIRED_COUNTERS = ['draws_checked', 'votes_recomputed', 'cell_nodes_exact']
+REQUIRED_COUNTERS = ['draws_checked', 'votes_recomputed', 'cell_nodes_exact',
+                     'cell_nodes_with_more_than_255_votes_for_a_child',
+                     'round_half_cases_checked']
 RULE = ('case = generated mapping world (taxonomy, reference profiles, '
         'marker table, query in a different gene order, configuration: '
         'factor 0.1-1 incl. values making factor x n land on .5 or below 1, '
@@ -64,7 +66,7 @@ def gen_cases(tier, seed):
             c['factor_lookup'] = True
         if i % 8 == 3:
             # vote counters must hold more than 255 (and 65535) votes
-            c['bootstrap_iteration'] = int(rng.choice([255, 256, 300, 700]))
+            c['bootstrap_iteration'] = [256, 300, 255, 700][(i // 8) % 4]
             c['n_cells'] = min(c['n_cells'], 8)
             c['separable'] = True
             c['noise'] = 0.3
